@@ -509,6 +509,21 @@ func pickAttr(r *hx.Rng, d Desc, arity int, fallback string) string {
 	return hx.Pick(r, namePool)
 }
 
+// pickAttrOther: like pickAttr, but an attribute OTHER than the conventional one (Position / TexCoord) is
+// preferred two times in three when the mesh has one
+func pickAttrOther(r *hx.Rng, d Desc, arity int, conventional string) string {
+	var others []string
+	for _, a := range d.Attrs {
+		if a.Arity == arity && a.Name != conventional {
+			others = append(others, a.Name)
+		}
+	}
+	if len(others) > 0 && r.Chance(2, 3) {
+		return hx.Pick(r, others)
+	}
+	return pickAttr(r, d, arity, conventional)
+}
+
 func randVec(r *hx.Rng, n, lo, hi int) []int64 {
 	v := make([]int64, n)
 	for i := range v {
@@ -657,26 +672,50 @@ func RandomOp(r *hx.Rng, d Desc, kinds []string) OpDesc {
 		for i := 0; i < n; i++ {
 			o.TRS = append(o.TRS, randTRS(r))
 		}
+	// attribute-addressed transforms: {Position, another attribute (also on meshes WITHOUT Position)} x {neutral
+	// parameters - origin exactly zero, amount exactly one, translation exactly zero, identity rotation - and
+	// non-neutral ones}: shortcuts for the neutral values must still address the NAMED attribute
 	case "translate":
-		o.Attr = pickAttr(r, d, 3, "Position")
+		o.Attr = pickAttrOther(r, d, 3, "Position")
 		o.V = randVec(r, 3, -9, 9)
+		if r.Chance(1, 5) {
+			o.V = []int64{0, 0, 0}
+		}
 	case "scale3":
-		o.Attr = pickAttr(r, d, 3, "Position")
+		o.Attr = pickAttrOther(r, d, 3, "Position")
 		o.V, o.V2 = randVec(r, 3, -4, 4), randVec(r, 3, -3, 3)
+		if r.Chance(1, 3) {
+			o.V = []int64{0, 0, 0}
+		}
+		if r.Chance(1, 6) {
+			o.V2 = []int64{1, 1, 1}
+		}
 	case "scale2":
-		o.Attr = pickAttr(r, d, 2, "TexCoord")
+		o.Attr = pickAttrOther(r, d, 2, "TexCoord")
 		o.V, o.V2 = randVec(r, 2, -4, 4), randVec(r, 2, -3, 3)
+		if r.Chance(1, 3) {
+			o.V = []int64{0, 0}
+		}
+		if r.Chance(1, 6) {
+			o.V2 = []int64{1, 1}
+		}
 	case "rotate":
-		o.Attr = pickAttr(r, d, 3, "Position")
+		o.Attr = pickAttrOther(r, d, 3, "Position")
 		o.V = randVec(r, 4, -3, 3)
+		if r.Chance(1, 5) {
+			o.V = []int64{0, 0, 0, 1}
+		}
 	case "apply_trs":
 		o.TRS = []TRSDesc{randTRS(r)}
+		if r.Chance(1, 6) {
+			o.TRS = []TRSDesc{{P: []int64{0, 0, 0}, S: []int64{1, 1, 1}, Q: []int64{0, 0, 0, 1}}}
+		}
 	case "center":
-		o.Attr = pickAttr(r, d, 3, "Position")
+		o.Attr = pickAttrOther(r, d, 3, "Position")
 	case "normalize3":
-		o.Attr = pickAttr(r, d, 3, "Position")
+		o.Attr = pickAttrOther(r, d, 3, "Position")
 	case "normalize2":
-		o.Attr = pickAttr(r, d, 2, "TexCoord")
+		o.Attr = pickAttrOther(r, d, 2, "TexCoord")
 	case "laplacian", "laplacian_axis":
 		o.Attr = pickAttr(r, d, 3, "Position")
 		o.Iter = r.Range(0, 3)
